@@ -7,6 +7,7 @@ def run(tier):
     r = Run('C06', tier, level='other')
     cm.run_kernels(r, cm.kernels('c_neighbours', 'c_upstream', 'c_downstream', 'c_delineate_area', 'c_delineate_river',
                                  'c_delineate_flowpathlengths_in_catchment'))
+    cm.run_monitors(r, ['mon_area', 'mon_updown', 'mon_paths'])
     r.explanation = ('proved (Engine C): upstream/downstream contracts and the lemma that they are inverse relations (updown_inverse, nbr_mirror), '
                      'river trace follows the downstream chain with row/column offsets and cumulated Euclidean distance, memory safety and termination '
                      'of the area delineation; bounded: area == reachable set (python monitor with a fix-point oracle)')
